@@ -261,3 +261,305 @@ def check_C08(tier, seed, rest):
            "rule": "Amb.tla: reachable product of the per-pattern reference automata of every corpus definition (accepted or rejected); "
                    "family of top-priority tie sets compared with the Disambiguation errors captured from the real derive; diagnostic text checked for naming each member"}
     finish("C08", tier, seed, "model_checking", cov, viol, t0, ASSUME_A[:3])
+
+
+# ------------------------------------------------------------------------------------------
+# sequence level (engine B: LexSpec.tla + replay) and trace level (engine T: LexTrace.tla)
+
+def engine_b(tier, seed, name="base", defs=None, cfgs=None):
+    from lexrun import lex_run
+    if defs is None:
+        defs = base_corpus(tier, seed)
+    if tier == "quick":
+        return lex_run(name, defs, tier, seed, cfgs or ALL_CFGS, 4, 4)
+    return lex_run(name, defs, tier, seed, cfgs or ALL_CFGS, 6, 5)
+
+
+def engine_t(tier, seed, name="base", defs=None, cfgs=None):
+    from tracerun import trace_run
+    if defs is None:
+        defs = base_corpus(tier, seed)
+    return trace_run(name, defs, tier, seed, cfgs or ALL_CFGS)
+
+
+def b_violation(f):
+    return {"key": "%s:%s:%s:%s" % (f["def"], f["kind"], f["input"], ",".join(map(str, f.get("splits") or []))),
+            "what": "%s on %s input=%s splits=%s: %s (cfg %s)" % (f["kind"], f["def"], f["input"], f.get("splits"), f.get("why"), f["cfg"]),
+            "definition": f.get("src"), "input_hex": f["input"], "splits": f.get("splits"), "expected": f.get("expected"), "got": f.get("got"), "cfg": f["cfg"]}
+
+
+def t_violation(f):
+    return {"key": "%s:%s:%s:%s" % (f["def"], f["kind"], f["input"], f.get("partial")),
+            "what": "%s on %s input=%s partial=%s event=%s (cfg %s)" % (f["kind"], f["def"], f["input"], f.get("partial"), json.dumps(f.get("event")), f["cfg"]),
+            "definition": f.get("src"), "input_hex": f["input"], "partial": f.get("partial"), "event": f.get("event"), "trace_tail": f.get("trace"), "got": f.get("got"), "cfg": f["cfg"]}
+
+
+def b_coverage(b, t=None, extra=None):
+    cov = {"states": b["tlc"]["distinct"], "transitions": b["tlc"]["states"],
+           "traces_validated_against_impl": b["runs"] + (t["distinct_traces"] if t else 0),
+           "samples": b["samples"][:4] + (t["samples"][:2] if t else []),
+           "definitions": b["defs"], "definitions_explored": b["explored"], "behaviours_enumerated": b["behaviours"],
+           "replay_requests": b["requests"], "configurations": b["cfgs"], "max_input_chars": b["maxlen"], "alphabet_chars": b["nchars"],
+           "rule": "LexSpec.tla: every input of at most max_input_chars characters over a per-definition alphabet (chosen from the blocks the graph reacts to, one 'other' and one multi-byte character); "
+                   "invariants + liveness checked by TLC; every behaviour replayed one-shot, partial on every prefix and chunked on the compiled lexers"}
+    if t:
+        cov.update({"trace_events_validated": t["events_consumed"], "trace_runs": t["runs"], "distinct_traces": t["distinct_traces"]})
+    if extra:
+        cov.update(extra)
+    return cov
+
+
+ASSUME_B = ASSUME_A[:3] + ["inputs are bounded in length for the sequence-level enumeration (unbounded length is covered per attempt by Attempt.tla) and random/structured for trace validation"]
+
+
+def check_C03(tier, seed, rest):
+    t0 = time.time()
+    b = engine_b(tier, seed)
+    t = engine_t(tier, seed)
+    a = engine_a(tier, seed)
+    v = [b_violation(f) for f in b["findings"] if f["kind"] in ("seq_full", "crash") and f.get("mode") == "full"]
+    v += [t_violation(f) for f in t["findings"] if f["kind"] in ("trace_next", "trace_ret", "trace_trivia", "crash") and not f.get("partial")]
+    # no definition with a nullable pattern is accepted
+    from pipeline import capture
+    defs_path, metas, _ = capture(base_corpus(tier, seed), "base")
+    n_null = 0
+    for line, m in zip(open(defs_path), metas):
+        td = json.loads(line)
+        if td["refsOk"] and any(rf["nullable"] for rf in td["ref"]):
+            n_null += 1
+            if m["accepted"]:
+                v.append({"key": "%s:nullable-accepted" % m["id"], "what": "definition with a pattern matching the empty string was accepted", "definition": m["src"]})
+    drift = ["model-level %s on %s path=%s" % (x["tag"], x["id"], x["path"]) for x in a["viol"] if x["tag"] in ("TRoot", "TProg", "TNullable")][:10]
+    finish("C03", tier, seed, "model_checking", b_coverage(b, t, {"nullable_definitions_checked_rejected": n_null,
+           "spec_properties": "Progress, Ordered, Gaps, EndsAtLen (invariants), Variant (action property), Terminates (<>done under WF)"}), v, t0, ASSUME_B, drift)
+
+
+def str_only(defs):
+    return [d for d in defs if d["utf8"]]
+
+
+def check_C04(tier, seed, rest):
+    t0 = time.time()
+    defs = base_corpus(tier, seed)
+    b = engine_b(tier, seed)
+    t = engine_t(tier, seed)
+    a = engine_a(tier, seed)
+    str_ids = {d["id"] for d in defs if d["utf8"]}
+    v = [b_violation(f) for f in b["findings"] if f["def"] in str_ids and f["kind"] in ("seq_full", "seq_partial", "seq_chunked", "crash", "badslice")]
+    v += [t_violation(f) for f in t["findings"] if f["def"] in str_ids and f["kind"] in ("trace_ret", "trace_endb", "trace_end", "crash")]
+    v += [as_violation(f) for f in a["findings"] if f["def"] in str_ids and f["kind"] in ("crash",)]
+    # acceptance clause: RefUtf8.tla
+    from pipeline import capture
+    defs_path, metas, _ = capture(defs, "base")
+    res = run_tlc("RefUtf8.tla", "RefUtf8.cfg", {"DEFS": defs_path}, workers=8, metaname="refutf8")
+    bad = {}
+    for tag, sub, rec in tlc_records(res["out"]):
+        if tag == "NONUTF8":
+            bad.setdefault(rec["d"], {}).setdefault(rec["leaf"], rec["path"])
+    n_non = 0
+    for m in metas:
+        if m["utf8"] and m["idx"] in bad:
+            n_non += 1
+            if m["accepted"]:
+                v.append({"key": "%s:nonutf8-accepted" % m["id"], "what": "str-mode definition accepted although pattern(s) %s can match invalid UTF-8" % sorted(bad[m["idx"]]),
+                          "definition": m["src"], "witness_block_paths": bad[m["idx"]], "blocks": m["blocks"]})
+    finish("C04", tier, seed, "model_checking", b_coverage(b, t, {"refutf8_states": res["distinct"], "str_definitions": len(str_ids),
+           "str_definitions_with_non_utf8_pattern_all_rejected": n_non,
+           "spec_properties": "Boundaries (LexSpec invariant), T-utf8 (Attempt invariant), Utf8Only (RefUtf8), endb = RoundUp and boundary conjuncts of LexTrace; driver compares slice()/remainder() with source[span] after every call in all builds"}),
+           v, t0, ASSUME_B)
+
+
+def check_C20(tier, seed, rest):
+    t0 = time.time()
+    t = engine_t(tier, seed)
+    b = engine_b(tier, seed)
+    v = [t_violation(f) for f in t["findings"] if f["kind"] in ("trace_read", "trace_next", "trace_trivia")]
+    # adversarial long inputs: nested / overlapping repetitions, linear read bound at length 10^4..10^5
+    adv = adversarial_reads(tier, seed)
+    v += adv["violations"]
+    cov = b_coverage(b, t, {"adversarial": adv["summary"],
+                            "spec_properties": "Read conjuncts of LexTrace: offset >= last offset of the attempt, #reads <= 4*(bytes examined)+8, next starts at the end of the last item"})
+    finish("C20", tier, seed, "model_checking", cov, v, t0, ASSUME_B)
+
+
+def adversarial_reads(tier, seed):
+    """(a|aa)+b style definitions on a...a : validated by LexTrace with the RefNext conjunct off
+    (CHECKRET=0) because the trace is long; read monotonicity and the linear bound stay on."""
+    from pipeline import build_subjects, capture, run_subject
+    from trace import reply_to_events, validate
+    defs = [corpus.mk("adv_nested", [corpus.rx("(a|aa)+b"), corpus.rx("a")]),
+            corpus.mk("adv_star", [corpus.rx("(a*)*c"), corpus.rx("a+")]),
+            corpus.mk("adv_alt", [corpus.rx("(a|ab|abc)*d"), corpus.rx("[abc]")]),
+            corpus.mk("adv_cnt", [corpus.rx("(aa|aaa)+;"), corpus.rx("a")])]
+    defs_path, metas, _ = capture(defs, "adv")
+    bins = build_subjects(metas, ["tc", "sm"], "adv")
+    n = 5000 if tier == "quick" else 100000
+    reqs = []
+    for m in metas:
+        for unit, tail in (("61", ""), ("6162", ""), ("61", "62"), ("616161", "3b")):
+            reqs.append(("%d ft4 %s*%d+%s" % (m["idx"], unit, n // (len(unit) // 2), tail), m, bytes.fromhex(unit) * (n // (len(unit) // 2)) + bytes.fromhex(tail)))
+    viol = []
+    runs = []
+    info = []
+    for c in ("tc", "sm"):
+        reps = run_subject(bins[c], [r[0] for r in reqs], timeout=900)
+        for (line, m, data), rep in zip(reqs, reps):
+            if "items" not in rep:
+                viol.append({"key": "%s:adv-crash:%s" % (m["id"], line.split(" ", 2)[2]), "what": "crash on long adversarial input (%s): %s" % (c, rep), "definition": m["src"]})
+                continue
+            runs.append(reply_to_events(m, list(data), False, rep))
+            info.append((m, line, c))
+    acc, rej, total = validate(defs_path, runs, "adv", cfg="LexTraceReads.cfg", jvms=8, per_file=60000)
+    for r in rej:
+        m, line, c = info[r["run"]]
+        viol.append({"key": "%s:adv-reads:%s" % (m["id"], line.split(" ", 2)[2]), "what": "read trace rejected at event %s on %s (%s)" % (json.dumps(r["event"]), line[:60], c), "definition": m["src"]})
+    return {"violations": viol, "summary": {"inputs": len(reqs), "length": n, "events_validated": total, "accepted": acc}}
+
+
+REL_CFGS = ["tc", "tc_safe", "sm", "sm_safe", "tc_rel", "tc_safe_rel"]
+
+
+def source_read_check(bins):
+    """SourceRead.tla enumerates (len, off, n); replay on the real Source::read of every build."""
+    from pipeline import run_subject
+    res = run_tlc("SourceRead.tla", "SourceRead.cfg", {}, workers=4, metaname="srcread")
+    if not res["ok"]:
+        raise ToolError("SourceRead.tla: BoundsRule violated in the model:\n" + res["out"][-2000:])
+    cases = [r[2] for r in tlc_records(res["out"]) if r[0] == "READ"]
+    reqs = []
+    for c in cases:
+        off = c["off"]
+        offs = str(off) if off < 12 else "MAX-%d" % (15 - off)
+        for kind in ("str", "bytes", "string", "vec", "boxstr"):
+            reqs.append(("R %s %d %s %d" % (kind, c["len"], offs, c["n"]), c, kind, offs))
+    viol = []
+    for cfg, b in bins.items():
+        reps = run_subject(b, [r[0] for r in reqs], timeout=600)
+        for (line, c, kind, offs), rep in zip(reqs, reps):
+            exp_some = c["some"]
+            ok = rep.get("some") == exp_some
+            if ok and exp_some:
+                size = 1 if c["n"] == 0 else c["n"]
+                want = bytes((0x61 + (i % 26)) for i in range(c["off"], c["off"] + size)).hex()
+                ok = rep.get("bytes") == want
+            if not ok:
+                viol.append({"key": "read:%s:%d:%s:%d" % (kind, c["len"], offs, c["n"]),
+                             "what": "Source::read on %s len=%d offset=%s size=%d: expected some=%s, got %s (cfg %s)" % (kind, c["len"], offs, c["n"], exp_some, rep, cfg)})
+    return viol, {"model_cases": len(cases), "read_replays": len(reqs) * len(bins), "states": res["distinct"]}
+
+
+def check_C05(tier, seed, rest):
+    t0 = time.time()
+    from pipeline import build_subjects, capture
+    defs = base_corpus(tier, seed)
+    t = engine_t(tier, seed, "base", defs, REL_CFGS)
+    a = engine_a(tier, seed)
+    b = engine_b(tier, seed)
+    v = [t_violation(f) for f in t["findings"] if f["kind"] in ("trace_read", "trace_end", "trace_endb", "cfg_diff", "crash")]
+    v += [as_violation(f) for f in a["findings"] if f["kind"] in ("cfg_diff", "crash")]
+    v += [b_violation(f) for f in b["findings"] if f["kind"] in ("crash", "badslice")]
+    defs_path, metas, _ = capture(defs, "base")
+    bins = build_subjects(metas, REL_CFGS, "base")
+    rv, rcov = source_read_check({c: bins[c] for c in ("tc", "tc_safe", "tc_rel", "tc_safe_rel")})
+    v += rv
+    cov = b_coverage(b, t, dict(rcov, configurations=REL_CFGS,
+                                 spec_properties="Read conjunct of LexTrace (Some <=> offset+size <= len) on every hooked read; End/EndB conjuncts (span inside the source); SourceRead.BoundsRule; "
+                                                 "event-by-event equality of default / forbid_unsafe / release builds; inputs are exactly-sized heap allocations of every length 0..17, 23..25, 31..33, 40"))
+    cov["states"] = cov["states"] + rcov["states"]
+    finish("C05", tier, seed, "model_checking", cov, v, t0,
+           ASSUME_B + ["all raw reads and unchecked slices of logos go through LexerInternal::read / Lexer::span (the two hooked choke points); an access that bypasses both (e.g. a changed Chunk::from_ptr) is outside what a TLA+ trace check can see"])
+
+
+def check_C06(tier, seed, rest):
+    t0 = time.time()
+    from pipeline import build_subjects, capture, run_subject
+    a = engine_a(tier, seed)
+    b = engine_b(tier, seed)
+    t = engine_t(tier, seed)
+    def sm_tc(f):
+        cs = f["cfg"].replace(",", "/").split("/")
+        return any(c.startswith("sm") for c in cs) and any(c.startswith("tc") for c in cs)
+    v = [as_violation(f) for f in a["findings"] if f["kind"] == "cfg_diff" and sm_tc(f)]
+    v += [t_violation(f) for f in t["findings"] if f["kind"] == "cfg_diff" and sm_tc(f)]
+    # any finding that shows in only one of the two code generators is a difference between them
+    def only_one_backend(findings, keyf):
+        by = {}
+        for f in findings:
+            if "/" in f["cfg"] or "," in f["cfg"]:
+                continue
+            by.setdefault(keyf(f), set()).add(f["cfg"][:2])
+        return {k for k, s in by.items() if len(s) == 1}
+    for k in only_one_backend(a["findings"], fkey):
+        v.append({"key": "onlyone:" + k, "what": "finding present in only one code generator: " + k})
+    for k in only_one_backend(b["findings"], lambda f: b_violation(f)["key"]):
+        v.append({"key": "onlyone:" + k, "what": "finding present in only one code generator: " + k})
+    # stack statement: state-machine lexer, stack use independent of token length and of the number of skips
+    defs = [corpus.mk("stk_tok", [corpus.rx("[a-z]+"), corpus.rx("[0-9]")], [corpus.skip(" ")]),
+            corpus.mk("stk_late", [corpus.rx(r"[a-z]+(?-u:\b)"), corpus.rx("[0-9]+x")], [corpus.skip("_")]),
+            corpus.mk("stk_bytes", [corpus.rx(rb"(?s-u:.)*?;", greedy=True)], utf8=False)]
+    defs_path, metas, _ = capture(defs, "stack")
+    cfgs = ["sm", "sm_safe", "sm_rel"]
+    bins = build_subjects(metas, cfgs, "stack")
+    sizes = [1000, 100000] + ([1000000] if tier == "thorough" else [300000])
+    shapes = [("stk_tok", "61", "20"), ("stk_tok", "20", "61"), ("stk_tok", "6120", ""), ("stk_late", "61", "20"), ("stk_late", "5f", "61"), ("stk_bytes", "78", "3b"), ("stk_bytes", "783b", "")]
+    idx = {m["id"]: m["idx"] for m in metas}
+    stack_rows = []
+    for c in cfgs:
+        reqs = []
+        for (d, unit, tail) in shapes:
+            for n in sizes:
+                reqs.append(("%d fk %s*%d+%s" % (idx[d], unit, n // (len(unit) // 2), tail), d, unit, n))
+        reps = run_subject(bins[c], [r[0] for r in reqs], timeout=1200)
+        by_shape = {}
+        for (line, d, unit, n), rep in zip(reqs, reps):
+            if "stack" not in rep:
+                v.append({"key": "stack:%s:%s:%d" % (d, unit, n), "what": "state-machine lexer did not survive input %s (cfg %s): %s" % (line[:40], c, rep)})
+                continue
+            by_shape.setdefault((d, unit), []).append((n, rep["stack"], rep["nev"]))
+        for (d, unit), rows in by_shape.items():
+            stack_rows.append({"cfg": c, "def": d, "unit": unit, "rows": rows})
+            uses = [r[1] for r in rows]
+            if max(uses) - min(uses) > 256:
+                v.append({"key": "stack:%s:%s" % (d, unit), "what": "stack use of the state-machine lexer depends on the input length (cfg %s): %s" % (c, rows)})
+    cov = b_coverage(b, t, {"stack_measurements": stack_rows[:6], "stack_input_lengths": sizes,
+                            "attempt_replays_compared_across_generators": a["runs"],
+                            "spec_properties": "same behaviours accepted by the same specification for tail-call and state-machine builds (Attempt replay, LexSpec replay, LexTrace), plus event-by-event equality of the traces; stack span of the hook probe constant over input lengths"})
+    finish("C06", tier, seed, "model_checking", cov, v, t0, ASSUME_B + ["stack use is measured at the runtime hook (address of a local in verif::emit) on every read/end/trivia event"])
+
+
+def check_C12(tier, seed, rest):
+    t0 = time.time()
+    import copy
+    base = [d for d in base_corpus(tier, seed) if d["utf8"]]
+    defs = []
+    for d in base:
+        defs.append(d)
+        tw = copy.deepcopy(d)
+        tw["id"] = d["id"] + "__bytes"
+        tw["utf8"] = False
+        tw["tags"] = list(d.get("tags", [])) + ["twin:" + d["id"]]
+        defs.append(tw)
+    b = engine_b(tier, seed, "modes", defs, ["tc", "sm_safe"])
+    v = [b_violation(f) for f in b["findings"] if f["kind"] in ("mode_diff", "seq_full", "crash")]
+    ex = b["extra"]
+    if ex.get("modes") and not ex["modes"]["ok"]:
+        v.append({"key": "modes-spec", "what": "Modes.tla: SameInBothModes violated at specification level", "tlc": ex.get("modes_out")})
+    # acceptance: non-UTF-8 patterns only with utf8 = false
+    from pipeline import capture
+    defs_path, metas, _ = capture(base_corpus(tier, seed), "base")
+    res = run_tlc("RefUtf8.tla", "RefUtf8.cfg", {"DEFS": defs_path}, workers=8, metaname="refutf8")
+    bad = {}
+    for tag, sub, rec in tlc_records(res["out"]):
+        if tag == "NONUTF8":
+            bad.setdefault(rec["d"], set()).add(rec["leaf"])
+    n_b = 0
+    for m in metas:
+        if m["idx"] in bad and m["utf8"] and m["accepted"]:
+            v.append({"key": "%s:nonutf8-accepted" % m["id"], "what": "pattern matching invalid UTF-8 accepted in str mode", "definition": m["src"]})
+        if m["idx"] in bad and not m["utf8"]:
+            n_b += 1
+    cov = b_coverage(b, None, {"mode_pairs": ex.get("mode_pairs_compared", 0), "modes_tlc": ex.get("modes"), "byte_mode_definitions_with_non_utf8_patterns": n_b,
+                               "spec_properties": "Modes.SameInBothModes (same Ok items, same error bytes) over all enumerated valid UTF-8 inputs; both variants replayed against LexSpec; real str output compared with real byte-mode output"})
+    if ex.get("modes"):
+        cov["states"] += ex["modes"]["distinct"]
+    finish("C12", tier, seed, "model_checking", cov, v, t0, ASSUME_B)
